@@ -38,6 +38,25 @@ pub static mut TAB: Table = Table {
     nd: 0,
 };
 
+/// Output preset for the NEXT oracle call (then cleared).  Restricts the quantified cipher family
+/// to those mapping that call's input to the preset value; used only where a symbolic value would
+/// make control flow symbolic (BelT-CTR's s0 = E(IV) inside the byte-level wrapper, whose
+/// `remaining_blocks` feeds a branch).  Every use is listed in the evidence assumptions.
+pub static mut PRESET: Option<[u8; MAXB]> = None;
+#[allow(static_mut_refs)]
+pub fn preset_next(v: u128) {
+    let mut b = [0u8; MAXB];
+    let le = v.to_le_bytes();
+    let mut i = 0;
+    while i < 16 {
+        b[i] = le[i];
+        i += 1;
+    }
+    unsafe {
+        PRESET = Some(b);
+    }
+}
+
 #[inline(always)]
 fn eq_n(a: &[u8; MAXB], b: &[u8; MAXB], n: usize) -> bool {
     let mut r = true;
@@ -95,6 +114,10 @@ pub fn apply(key: [u8; 2], inp: &[u8; MAXB], n: usize, forward: bool) -> [u8; MA
             fresh[i] = if forward { inp[i].wrapping_add(key[0]) ^ key[1] } else { (inp[i] ^ key[1]).wrapping_sub(key[0]) };
             i += 1;
         }
+    }
+    #[allow(static_mut_refs)]
+    if let Some(p) = unsafe { PRESET.take() } {
+        fresh = p;
     }
     let (x, y) = if forward { (*inp, fresh) } else { (fresh, *inp) };
     #[cfg(kani)]
